@@ -389,8 +389,14 @@ def option_sets(rng, kmin, thorough):
             {"optimize_with_guessed_weights": True},
             {"optimize_with_guessed_weights": True, "use_min_gen_set_lowerbound": True},
             {"lowerbound_k": kmin}, {"lowerbound_k": max(1, kmin - 1), "optimize_with_greedy": False},
-            {"use_min_gen_set_lowerbound": True, "use_min_gen_set_lowerbound_partition_constraints": True}]
-    return base + (more if thorough else rng.sample(more, 2))
+            {"use_min_gen_set_lowerbound": True, "use_min_gen_set_lowerbound_partition_constraints": True},
+            # the safety machinery as constraints (what is "safe" must be judged on the part of the input that is not ignored)
+            {"optimize_with_safety_as_subpath_constraints": True},
+            {"optimize_with_safety_as_subpath_constraints": True, "optimize_with_flow_safe_paths": False,
+             "optimize_with_safe_paths": True, "optimize_with_greedy": False},
+            {"optimize_with_safety_as_subpath_constraints": True, "optimize_with_flow_safe_paths": False,
+             "optimize_with_safe_paths": False, "optimize_with_safe_sequences": True}]
+    return base + (more if thorough else rng.sample(more, 3))
 
 
 # =====================================================================================================
